@@ -110,6 +110,7 @@ def main(tier: str, seed: int, replay: str | None = None) -> int:
     rep.proof_stage()
     rep.proof_stage("C05_fix")      # leastness of fix() on single-polarity types; fuel bounds
     rep.proof_stage("C05_ctx")      # lub/glb/perm/mono for arbitrary one-hole contexts of any arity and variance
+    rep.proof_stage("C05_mixed_tb")  # ... with Bottom in covariant and Top in contravariant positions (ignored by the engine)
     rep.proof_stage("C05_mixed")    # a different context (and polarity) per parameter, any result context: accept iff L <= U, result r(L) / r(U), permutation-invariant
     rng = random.Random(seed)
     quick = tier == "quick"
